@@ -9,8 +9,8 @@ CONSTANTS
   BatchSizes = {1, 2, 3}
   PerIns = 1
   PerFl = 1
+  LateTables = {}
   LockScope = "fix"
   SigMode = "none"
 VIEW View
 INVARIANTS TypeOK AllPersistedOnce NoCrash FlushHoldsLock NeverTwice LocInternOK TxnOwner EmitCase
-PROPERTIES Terminates Refines
